@@ -57,7 +57,8 @@ def run_model(ctx, key, pkg, nsets, flavors):
             vals = vgp.steps(proto, stream_len=(40 if k == 2 else None))
             data = c.encode_stream(proto, sch, vals)
             ctx.case(("pyvals", key, proto.name, k, len(data)))
-            for ep in (rt.PyEndpoint(m), rt.PyEndpoint(m, mode="list")):
+            # (fortran / views: every array is handed to the writer in another memory layout - Fortran order, a strided and reversed view)
+            for ep in (rt.PyEndpoint(m), rt.PyEndpoint(m, mode="list"), rt.PyEndpoint(m, mode="fortran"), rt.PyEndpoint(m, mode="views")):
                 r = ep.copy(proto.name, "bin", "bin", data)
                 ctx.ev()
                 ctx.count("corpus." + ep.name)
